@@ -6,4 +6,4 @@ rm -f model.ml model.mli
 coqc -Q ../theories L3 -Q ../gen L3G -Q . L3X Extract.v >/dev/null
 cp model.ml model.mli ../../ocaml/
 cd ../../ocaml
-ocamlfind ocamlopt -w -a -package str -linkpkg model.mli model.ml conv.ml runner.ml -o runner
+ocamlfind ocamlopt -w -a -package str -linkpkg model.mli model.ml conv.ml connrun.ml runner.ml -o runner
